@@ -448,6 +448,7 @@ class StmtNorm(object):
     # -- one statement list --------------------------------------------------
     def block(self, stmts, loop_tail, func_tail):
         stmts = self.expand_ifexp(stmts)
+        stmts = self.thread_flags(stmts)
         stmts = self.loops_to_comprehensions(stmts)
         stmts = self.nest_guards(stmts)
         out = []
@@ -471,6 +472,121 @@ class StmtNorm(object):
         if not stmts:
             stmts = [ast.Pass()]
         return stmts
+
+    # -- flag variables -----------------------------------------------------
+    # if A: ...; flag = False          if A: ...; flag = False
+    # else: flag = E            ==>    else: flag = E; if E: BODY
+    # if flag: BODY
+    def thread_flags(self, stmts):
+        out = []
+        i = 0
+        while i < len(stmts):
+            s = stmts[i]
+            nxt = stmts[i + 1] if i + 1 < len(stmts) else None
+            if isinstance(s, ast.If) and s.orelse and isinstance(nxt, ast.If):
+                flag = nxt.test.id if isinstance(nxt.test, ast.Name) else (
+                    nxt.test.operand.id if isinstance(nxt.test, ast.UnaryOp) and
+                    isinstance(nxt.test.op, ast.Not) and isinstance(nxt.test.operand, ast.Name)
+                    else None)
+                if flag and _ends_with_flag(s.body, flag) and _ends_with_flag(s.orelse, flag):
+                    self.bump('flag-threaded')
+                    self._thread(s.body, nxt, flag)
+                    self._thread(s.orelse, nxt, flag)
+                    out.append(s)
+                    i += 2
+                    continue
+            out.append(s)
+            i += 1
+        return out
+
+    def _thread(self, branch, follow, flag):
+        last = branch[-1]
+        if isinstance(last, ast.If):
+            self._thread(last.body, follow, flag)
+            self._thread(last.orelse, follow, flag)
+            return
+        val = last.value
+        f = copy.deepcopy(follow)
+
+        class Sub(ast.NodeTransformer):
+            def visit_Name(self_, node):
+                if node.id == flag and isinstance(node.ctx, ast.Load):
+                    return _loc(copy.deepcopy(val), node)
+                return node
+        f.test = bool_ctx(norm_expr(Sub().visit(f.test)))
+        if isinstance(f.test, ast.Constant):
+            branch.extend(f.body if f.test.value else f.orelse)
+        elif isinstance(f.test, ast.UnaryOp) and isinstance(f.test.op, ast.Not) and \
+                isinstance(f.test.operand, ast.Constant):
+            branch.extend(f.orelse if f.test.operand.value else f.body)
+        else:
+            branch.append(f)
+
+    def unpack_in_target(self, loop):
+        """for k, v in X: (a, b) = v; ...   ->   for k, (a, b) in X: ..."""
+        if not loop.body:
+            return
+        first = loop.body[0]
+        if not (isinstance(first, ast.Assign) and len(first.targets) == 1 and
+                isinstance(first.targets[0], (ast.Tuple, ast.List)) and
+                isinstance(first.value, ast.Name) and len(loop.body) > 1):
+            return
+        v = first.value.id
+        holders = [n for n in ast.walk(loop.target) if isinstance(n, ast.Name) and n.id == v]
+        if len(holders) != 1 or loop.target is holders[0]:
+            return
+        uses = sum(1 for st in loop.body[1:] + list(loop.orelse) for n in ast.walk(st)
+                   if isinstance(n, ast.Name) and n.id == v)
+        if uses or any(isinstance(n, ast.Starred) for n in ast.walk(first.targets[0])):
+            return
+
+        class R(ast.NodeTransformer):
+            def visit_Name(self_, node):
+                if node is holders[0]:
+                    return _loc(ast.Tuple(elts=first.targets[0].elts, ctx=ast.Store()), node)
+                return node
+        loop.target = R().visit(loop.target)
+        loop.body = loop.body[1:]
+        self.bump('unpack-in-target')
+
+    def drop_dead_stores(self, fnode):
+        """`x = <pure expression>` where the local x is never read"""
+        loaded, keep = set(), set()
+        for n in ast.walk(fnode):
+            if isinstance(n, ast.Name) and isinstance(n.ctx, (ast.Load, ast.Del)):
+                loaded.add(n.id)
+            elif isinstance(n, (ast.Global, ast.Nonlocal)):
+                keep |= set(n.names)
+            elif isinstance(n, ast.AugAssign) and isinstance(n.target, ast.Name):
+                loaded.add(n.target.id)
+            elif isinstance(n, ast.Call) and dotted(n.func) in ('locals', 'vars', 'eval', 'exec'):
+                return
+
+        def dead(st):
+            return isinstance(st, ast.Assign) and len(st.targets) == 1 and \
+                isinstance(st.targets[0], ast.Name) and st.targets[0].id not in loaded and \
+                st.targets[0].id not in keep and _pure_flag_value(st.value) and \
+                not any(isinstance(x, (ast.Subscript, ast.Attribute, ast.BinOp))
+                        for x in ast.walk(st.value))
+
+        def rec(stmts):
+            out = []
+            for st in stmts:
+                if dead(st):
+                    self.bump('dead-store-dropped')
+                    continue
+                for field in ('body', 'orelse', 'finalbody'):
+                    v = getattr(st, field, None)
+                    if isinstance(v, list) and v and isinstance(v[0], ast.stmt) and \
+                            not isinstance(st, (ast.FunctionDef, ast.AsyncFunctionDef,
+                                                ast.ClassDef)):
+                        new = rec(v)
+                        setattr(st, field, new or ([ast.Pass()] if field == 'body' else []))
+                for h in getattr(st, 'handlers', []) or []:
+                    h.body = rec(h.body) or [ast.Pass()]
+                out.append(st)
+            return out
+        fnode.body = rec(fnode.body) or [ast.Pass()]
 
     def expand_ifexp(self, stmts):
         out = []
@@ -568,6 +684,7 @@ class StmtNorm(object):
     def stmt(self, s, loop_tail, func_tail):
         if isinstance(s, (ast.FunctionDef, ast.AsyncFunctionDef)):
             s.body = self.block(s.body, False, True)
+            self.drop_dead_stores(s)
             return s
         if isinstance(s, ast.ClassDef):
             s.body = self.block(s.body, False, False)
@@ -589,10 +706,14 @@ class StmtNorm(object):
                 s.test = negate(s.test)
                 s.body, s.orelse = s.orelse, s.body
             return s
+        if isinstance(s, (ast.For, ast.AsyncFor)):
+            self.unpack_in_target(s)
         if isinstance(s, (ast.For, ast.AsyncFor, ast.While)):
             s.body = self.block(s.body, True, False)
             if s.orelse:
                 s.orelse = self.block(s.orelse, loop_tail, func_tail)
+                if len(s.orelse) == 1 and isinstance(s.orelse[0], ast.Pass):
+                    s.orelse = []
             return s
         if isinstance(s, (ast.With, ast.AsyncWith)):
             s.body = self.block(s.body, loop_tail, func_tail)
@@ -621,6 +742,28 @@ class StmtNorm(object):
                 c.body = self.block(c.body, loop_tail, func_tail)
             return s
         return s
+
+
+def _pure_flag_value(e):
+    """cheap and free of side effects: may be evaluated once more"""
+    for n in ast.walk(e):
+        if isinstance(n, ast.Call) and dotted(n.func) not in ('len', 'bool', 'isinstance'):
+            return False
+        if isinstance(n, (ast.Yield, ast.YieldFrom, ast.Await, ast.NamedExpr, ast.Lambda)):
+            return False
+    return True
+
+
+def _ends_with_flag(branch, flag):
+    if not branch:
+        return False
+    last = branch[-1]
+    if isinstance(last, ast.Assign) and len(last.targets) == 1 and \
+            isinstance(last.targets[0], ast.Name) and last.targets[0].id == flag:
+        return _pure_flag_value(last.value)
+    if isinstance(last, ast.If) and last.orelse:
+        return _ends_with_flag(last.body, flag) and _ends_with_flag(last.orelse, flag)
+    return False
 
 
 def _target_in(target, expr):
